@@ -33,8 +33,8 @@ Definition parse_lists : Z -> list (list Z) -> option (list (list Z)) := parse_s
 
 (* ---- which exception, at which row, for malformed texts: the code as in /repo now; after notes/C18.fix-3.diff
         set these to str_to_int_res_fixed / str_to_float_err_fixed ---- *)
-Definition int_outcome : list (list Z) -> pres (list Z) := str_to_int_res.
-Definition float_outcome : list (list Z) -> pres unit := str_to_float_err.
+Definition int_outcome : list (list Z) -> pres (list Z) := str_to_int_res_fixed.
+Definition float_outcome : list (list Z) -> pres unit := str_to_float_err_fixed.
 Definition float_plus : bool := true.     (* which variant of the float parser the double model follows *)
 Definition parse_tol : Z := 8.     (* float parsing tolerance in half-ulps: 4 ulp *)
 
